@@ -7,6 +7,7 @@
 #include "poseidon_goldilocks.hpp"
 #include "merklehash_goldilocks.hpp"
 #include "harness.hpp"
+#include <omp.h>
 #include "gen.hpp"
 #include <climits>
 #include <memory>
@@ -259,6 +260,32 @@ int main(int argc, char **argv)
                     rep.cls("team:delivered_smaller_than_requested");
                 }
             verif_omp_set_mode(1, 0, 0);
+        }
+        // the same workload issued by every member of an OpenMP team of the caller (the library's regions are then nested ones): each
+        // member, on its own buffers, must get the single-thread output. Real runtime only; every third workload; bounded sizes.
+        if (mode == "libgomp" && args.getu("teamcallers", 0) && i % 3 == 0 && (w.kind > 10 || (w.kind <= 2 ? w.d <= 9 : w.rows <= 64)))
+        {
+            std::set<std::string> *keep = g_hook_seen;
+            g_hook_seen = nullptr; // the evidence hook is not thread safe
+            const int T = 2 + (int)(i % 3);
+            std::vector<std::vector<uint64_t>> outs(T);
+#pragma omp parallel num_threads(T)
+            {
+                int me = omp_get_thread_num();
+                if (me < T) execute(w, 1 + (me + (int)i) % 4, outs[me], args.seed);
+            }
+            g_hook_seen = keep;
+            for (int t = 0; t < T; t++)
+            {
+                rep.evaluations++;
+                if (outs[t].size() != ref.size() || memcmp(outs[t].data(), ref.data(), ref.size() * 8) != 0)
+                {
+                    rep.violation("C12:" + mode + ":" + w.name() + ":output-differs-when-the-caller-is-a-member-of-an-OpenMP-team",
+                                  J().raw("workload", w.json()).i("team_of_callers", T).i("caller", t).done());
+                    break;
+                }
+            }
+            rep.cls("team:callers_inside_an_OpenMP_team");
         }
         rep.nontrivial(vf::mix64(i, w.kind));
         if (i % 53 == 0) rep.sample(w.name(), w.json());
